@@ -505,7 +505,9 @@ func checkC08Wiring(p *Prog, r *Report, ru *Rule, get *ssa.Function) {
 // flagNameOf: if v is a load of the pointer returned by flag.String/Bool/...
 // returns the flag's constant name.
 func flagNameOf(v ssa.Value) string {
-	v = resolveCell(v)
+	/* (through a conversion to a named type of the same kind:
+	oneshell.Mode(*oneShell) is the flag's value) */
+	v = resolveCell(stripConv(resolveCell(v), false))
 	if n := flagFieldNameOf(v); "" != n {
 		return n
 	}
